@@ -108,6 +108,8 @@ mod voronoi;
 pub mod verif_hooks;
 
 pub use voronoi::{
-    convex_cell::Vertex, half_space::HalfSpace, integrals, ConvexCell, Dimensionality, Voronoi,
+    convex_cell::{ConvexCellMarker, Vertex, WithFaces, WithoutFaces},
+    half_space::HalfSpace,
+    integrals, ConvexCell, Dimensionality, Voronoi,
     VoronoiCell, VoronoiFace, VoronoiIntegrator,
 };
